@@ -13,8 +13,19 @@
 #include <sched.h>
 #include <stdatomic.h>
 #include <sys/syscall.h>
+#include <stdarg.h>
+#include <dlfcn.h>
+#include <linux/futex.h>
 typedef void (*cb_t)(const volatile void *addr, unsigned size, int op, uint64_t o, uint64_t n, const char *func, int line);
 extern cb_t _dispatch_verif_atomic_cb;
+// the environment of a parked synchronous caller: FUTEX_WAIT on its thread event (expected value UINT32_MAX) may return 0 without the
+// hand-over having happened (futex(2): spurious wake-ups, a stray FUTEX_WAKE on a re-used stack word); the caller must re-read the word
+static long (*real_syscall)(long, ...); static int inject; static atomic_long spurious; static __thread uint64_t srng;
+long syscall(long n, ...){ va_list ap; va_start(ap,n); long a0=va_arg(ap,long),a1=va_arg(ap,long),a2=va_arg(ap,long),a3=va_arg(ap,long),a4=va_arg(ap,long),a5=va_arg(ap,long); va_end(ap);
+  if(!real_syscall) real_syscall=(long(*)(long,...))dlsym(RTLD_NEXT,"syscall");
+  if(n==SYS_futex && inject && (a1&FUTEX_CMD_MASK)==FUTEX_WAIT && (uint32_t)a2==UINT32_MAX){ if(!srng) srng=0x9e3779b97f4a7c15ull^(uint64_t)(uintptr_t)&srng; srng^=srng<<13; srng^=srng>>7; srng^=srng<<17;
+    if(srng%3==0){ atomic_fetch_add(&spurious,1); return 0; } }
+  return real_syscall(n,a0,a1,a2,a3,a4,a5); }
 extern volatile void *_dispatch_verif_queue_state_addr(dispatch_queue_t dq);
 typedef struct { uint64_t seq; int tid; int q; int off; int op; uint64_t o, n; const char *func; int line; } ev_t;
 #define MAXEV (1<<21)
@@ -70,12 +81,12 @@ int main(int argc, char **argv){
     else Q[i] = dispatch_queue_create_with_target("q", attr, Q[parent]); }
   evs = calloc(MAXEV, sizeof(ev_t));
   for (int i=wl_bottom;i<nq;i++) printf("Q %d width %d stateoff %ld\n", i, serial[i]?1:4094, (long)((char*)_dispatch_verif_queue_state_addr(Q[i])-(char*)Q[i]));
-  _dispatch_verif_atomic_cb = cb;
+  _dispatch_verif_atomic_cb = cb; inject = 1;
   pthread_t wd; pthread_create(&wd,0,watchdog,(void*)(intptr_t)(nthr*nops));
   pthread_t th[64]; for (int i=0;i<nthr;i++) pthread_create(&th[i],0,client,(void*)(intptr_t)i);
   for (int i=0;i<nthr;i++) pthread_join(th[i],0);
   for (int w=0; w<30000 && atomic_load(&done_items) < nthr*nops; w++) usleep(1000);
   _dispatch_verif_atomic_cb = 0;
   if (atomic_load(&done_items) < nthr*nops) { printf("STUCK %d of %d items done\n", atomic_load(&done_items), nthr*nops); dump(); return 3; }
-  if (viol) printf("ORACLE VIOL seed=%lu %s\n", (unsigned long)seed, vmsg); else printf("ORACLE ok items=%d events=%lu queues=%d\n", nthr*nops, atomic_load(&nev), nq);
+  if (viol) printf("ORACLE VIOL seed=%lu %s\n", (unsigned long)seed, vmsg); else printf("ORACLE ok items=%d events=%lu queues=%d spurious_futex_returns=%ld\n", nthr*nops, atomic_load(&nev), nq, atomic_load(&spurious));
   dump(); return viol?1:0; }
